@@ -423,7 +423,7 @@ class Scene:
 # ------------------------------------------------------------------------------------------ oracle: parsing the harness output
 def parse_eval(out, pos):
     """parse the lines of one `eval` starting at out[pos]; returns (record, next position)"""
-    rec = {"sens": [], "arr": {}, "con": [], "refobj": {}, "refref": {}, "error": None}
+    rec = {"sens": [], "arr": {}, "con": [], "refobj": {}, "refref": {}, "error": None, "names": {}}
     while pos < len(out):
         w = out[pos].split()
         pos += 1
@@ -441,6 +441,8 @@ def parse_eval(out, pos):
                                 "cutoff": float(w[11]), "intprm": [int(w[12]), int(w[13])]})
         elif w[0] == "arr":
             rec["arr"][w[1]] = [float(x) for x in w[3:]]
+        elif w[0] == "names":
+            rec["names"][w[1]] = w[3:]
         elif w[0] == "iarr":
             rec["arr"][w[1]] = [int(x) for x in w[3:]]
         elif w[0] == "con":
@@ -608,8 +610,15 @@ def judge(scene, rec, uservals, dev):
         tag = t + ("+ref" if s["refid"] >= 0 and t.startswith("FRAME") else "")
         # entries the sensor did not write keep the poison (or a clamped poison): the two runs then differ
         if any(not (x == y or (x != x and y != y)) for x, y in zip(got, got_b)):
-            fails.append(("c28:%s:unwritten-entry" % t, "a sensor reading depends on the previous content of sensordata (entry not written)",
-                          {"sensor": s, "run_a": got, "run_b": got_b}))
+            pa = apply_cutoff([7.7e77], s["cutoff"], s["datatype"], t)[0]
+            pb = apply_cutoff([-3.3e33], s["cutoff"], s["datatype"], t)[0]
+            if any(x == pa and y == pb for x, y in zip(got, got_b)):
+                fails.append(("c28:%s:unwritten-entry" % t, "a sensor entry keeps the previous content of sensordata (entry not written)",
+                              {"sensor": s, "spec": spec, "run_a": got, "run_b": got_b}))
+            else:
+                fails.append(("c28:%s:value" % t, "the reading changes when mj_forward is repeated on the same state: it is not a function "
+                              "of the state (stale quantity from the previous evaluation)",
+                              {"sensor": s, "spec": spec, "first_forward": got, "second_forward": got_b, "enableflags": A["opt.flags"][1]}))
             continue
         exp, scale, skip = None, 1.0, False
         oid, rid = s["objid"], s["refid"]
@@ -648,11 +657,11 @@ def judge(scene, rec, uservals, dev):
             if wraps and all(w[0] == "joint" for w in wraps):
                 tot = 0.0
                 for w in wraps:
-                    j = next(j for j in scene.mdl.joints if j["name"] == w[1])
-                    tot += float(w[2]) * (A["qpos"][j["qposadr"]] if t == "TENDONPOS" else A["qvel"][j["dofadr"]])
+                    jid = rec["names"]["joint"].index(w[1])
+                    tot += float(w[2]) * (A["qpos"][A["jnt_qposadr"][jid]] if t == "TENDONPOS" else A["qvel"][A["jnt_dofadr"][jid]])
                 chk("independent", cut([tot]), got, TOL * scale, "tendon sensor differs from sum coef * joint coordinate")
             elif len(wraps) == 2 and all(w[0] == "site" for w in wraps):
-                ids = [[x["name"] for x in scene.mdl.sites].index(w[1]) for w in wraps]
+                ids = [rec["names"]["site"].index(w[1]) for w in wraps]
                 p = [A["site_xpos"][3 * i:3 * i + 3] for i in ids]
                 dvec = sub(p[0], p[1])
                 if t == "TENDONPOS":
@@ -668,11 +677,11 @@ def judge(scene, rec, uservals, dev):
             key = {"ACTUATORPOS": "actuator_length", "ACTUATORVEL": "actuator_velocity", "ACTUATORFRC": "actuator_force"}[t]
             exp = [A[key][oid]]
             scale = max(1.0, abs(exp[0]), vel_scale)
-            a = next(a for a in scene.mdl.actuators if a["name"] == spec["objname"])
-            if a.get("joint") and t != "ACTUATORFRC":
-                j = next(j for j in scene.mdl.joints if j["name"] == a["joint"])
+            jid = A["actuator_trnid"][2 * oid]
+            if (A["actuator_trntype"][oid] == E("mjTRN_JOINT") and t != "ACTUATORFRC" and
+                    A["jnt_type"][jid] in (E("mjJNT_HINGE"), E("mjJNT_SLIDE"))):
                 gear = A["actuator_gear"][6 * oid]
-                v = gear * (A["qpos"][j["qposadr"]] if t == "ACTUATORPOS" else A["qvel"][j["dofadr"]])
+                v = gear * (A["qpos"][A["jnt_qposadr"][jid]] if t == "ACTUATORPOS" else A["qvel"][A["jnt_dofadr"][jid]])
                 chk("independent", cut([v]), got, TOL * scale, "actuator sensor differs from gear * joint coordinate")
         elif t in ("JOINTLIMITPOS", "JOINTLIMITVEL", "JOINTLIMITFRC", "TENDONLIMITPOS", "TENDONLIMITVEL", "TENDONLIMITFRC"):
             ct = E("mjCNSTR_LIMIT_JOINT") if t.startswith("JOINT") else E("mjCNSTR_LIMIT_TENDON")
@@ -714,7 +723,13 @@ def judge(scene, rec, uservals, dev):
                         ind = dh - mg if t.endswith("POS") else -val[1]
                     else:
                         ind = 0.0
-                    chk("independent", cut([ind]), got, TOL * max(1.0, vel_scale), "limit sensor differs from the distance/velocity to the limit")
+                    # a violated limit whose Jacobian row is empty (tendon between bodies without dofs) gets no constraint
+                    # row at all and the sensor then reads 0: whether the row exists is mj_makeConstraint's business (C11)
+                    if row is None and ind != 0.0:
+                        ind = 0.0
+                        dev.m["skipped:limit-without-row"] = dev.m.get("skipped:limit-without-row", 0) + 1
+                    chk("independent", cut([ind]), got, TOL * max(1.0, vel_scale), "limit sensor differs from the distance/velocity to the limit",
+                        {"value": val, "range": [rlo, rhi], "margin": mg})
         elif t in ("FRAMEPOS", "FRAMEXAXIS", "FRAMEYAXIS", "FRAMEZAXIS"):
             _, p, R = frame_of(A, s["objtype"], oid)
             v = p if t == "FRAMEPOS" else [R["XYZ".index(t[5])], R["XYZ".index(t[5]) + 3], R["XYZ".index(t[5]) + 6]]
